@@ -46,3 +46,4 @@ Proof.
   intros ny nx g h Hy Hx. cbv zeta. rewrite gen_get_min_max_from_grid_eq. cbn [fst snd].
   exact (grid_extrema ny nx g h Hy Hx).
 Qed.
+
